@@ -98,7 +98,8 @@ Edits(p) ==
        \/ \E t \in Types : Edit(p, SetField(p, si, fi, [p.structs[si].fields[fi] EXCEPT !.t = t]), "retype-field")
        \/ \E r \in {"required", "optional", "default"} : p.structs[si].kind # "union" /\ Edit(p, SetField(p, si, fi, [p.structs[si].fields[fi] EXCEPT !.req = r]), "req-field")
        \/ Edit(p, [p EXCEPT !.structs[si].fields = SeqRemove(@, fi)], "remove-field")
-       \/ Edit(p, SetField(p, si, fi, [p.structs[si].fields[fi] EXCEPT !.name = "renamed"]), "rename-field")
+       \/ Find(p.structs[si].fields, "renamed") = 0 /\      \* (a struct cannot have two fields of one name)
+          Edit(p, SetField(p, si, fi, [p.structs[si].fields[fi] EXCEPT !.name = "renamed"]), "rename-field")
   \/ \E si \in Idx(p.structs), r \in {"required", "optional", "default"}, id \in {3, 9} :
        FieldById(p.structs[si].fields, id) = 0 /\ (p.structs[si].kind = "union" => r = "optional") /\
        Edit(p, [p EXCEPT !.structs[si].fields = Append(@, F(id, r, B("i32"), IF id = 9 THEN "z" ELSE "mid"))],
@@ -114,13 +115,14 @@ Edits(p) ==
        (t.k = "ref" => t.n # p.typedefs[ti].name) /\ Edit(p, [p EXCEPT !.typedefs[ti].t = t], "retarget-typedef")
   \/ \E ei \in Idx(p.enums) : \E vi \in Idx(p.enums[ei].vals) :
        \/ Edit(p, [p EXCEPT !.enums[ei].vals = SeqRemove(@, vi)], "remove-enum-value")
-       \/ Edit(p, [p EXCEPT !.enums[ei].vals[vi].name = "ZZ"], "rename-enum-value")
+       \/ Find(p.enums[ei].vals, "ZZ") = 0 /\ Edit(p, [p EXCEPT !.enums[ei].vals[vi].name = "ZZ"], "rename-enum-value")
   \/ \E vi \in Idx(p.services) : \E mi \in Idx(p.services[vi].methods) :
        \/ Edit(p, [p EXCEPT !.services[vi].methods = SeqRemove(@, mi)], "remove-method")
        \/ Edit(p, [p EXCEPT !.services[vi].methods[mi].oneway = ~@], "toggle-oneway")   \* may be ill-formed; filtered below
        \/ \E t \in {<<>>, <<B("i32")>>, <<B("i64")>>} : Edit(p, [p EXCEPT !.services[vi].methods[mi].ret = t], "change-ret")
        \/ Edit(p, [p EXCEPT !.services[vi].methods[mi].throws = <<>>], "drop-throws")
-       \/ Edit(p, [p EXCEPT !.services[vi].methods[mi].throws = Append(@, F(7, "optional", R("Ex1"), "e7"))], "add-throw")
+       \/ FieldById(p.services[vi].methods[mi].throws, 7) = 0 /\    \* (ids and names of a throws list are unique)
+          Edit(p, [p EXCEPT !.services[vi].methods[mi].throws = Append(@, F(7, "optional", R("Ex1"), "e7"))], "add-throw")
        \/ \E ai \in Idx(p.services[vi].methods[mi].args) : \E t \in Types :
             Edit(p, [p EXCEPT !.services[vi].methods[mi].args[ai].t = t], "retype-arg")
        \/ \E id \in {3, 9}, r \in {"required", "default"} :
